@@ -102,7 +102,7 @@ def extra(binary, build, tier, rng):
     # the n intervals (no assumption on which element the first draw moves, or where to); exact uniformity = the n steps are equally long.
     from .preimage_oracle import Prober
     T = (1 << 63) + 1
-    for n in ((9, 11, 19, 23, 27, 9 + rng.below(300), 9 + rng.below(300)) if tier == "quick" else tuple(range(9, 70)) + (100, 255, 257)):      # (the request line grows with n: every probe carries the n items and the n - 2 tail words)
+    for n in ((9, 11, 19, 23, 27, 9 + rng.below(60), 9 + rng.below(60)) if tier == "quick" else tuple(range(9, 70)) + (100,)):      # (the request line grows with n: every probe carries the n items and the n - 2 tail words)
         items = ",".join(map(str, range(n)))
         tail = ",".join([str(T)] * (n - 2))      # exactly the n - 2 further draws: a rejected first word makes the script run dry (no outcome)
         mk = (lambda w, items=items, tail=tail: "shuf items=%s words=%d,%s" % (items, w, tail))
